@@ -283,7 +283,9 @@ class FStringNode:
 
 def _close_fstring_if_necessary(fstring_stack, string, line_nr, column, additional_prefix):
     for fstring_stack_index, node in enumerate(fstring_stack):
-        lstripped_string = string.lstrip()
+        # Only strip what the tokenizer treats as whitespace (and therefore as
+        # prefix) as well. Other unicode whitespace is not part of a prefix.
+        lstripped_string = string.lstrip(' \t\f')
         len_lstrip = len(string) - len(lstripped_string)
         if lstripped_string.startswith(node.quote):
             token = PythonToken(
